@@ -14,6 +14,17 @@ PENALTIES = [1, 10, 50]
 DIRN = {1: 'N', 2: 'E', 4: 'S', 8: 'W'}
 
 
+def build_harness_retry(name, libs, flavor, tries=4):
+    """the object cache keeps one tree per lib/flavor; a concurrent run on another tree (VERIF_REPO) may evict ours between
+    the library build and the link - simply retry"""
+    for i in range(tries):
+        try:
+            return C.build_harness(name, libs, flavor)
+        except RuntimeError as e:
+            if 'No such file' not in str(e) or i == tries - 1:
+                raise
+
+
 # ------------------------------------------------------------------------------------------ scenes
 def rects_sep(a, b, gap):
     return a[2] + gap <= b[0] or b[2] + gap <= a[0] or a[3] + gap <= b[1] or b[3] + gap <= a[1]
@@ -97,6 +108,16 @@ def corridor_scene(rng):
     return boxes, conns
 
 
+def start_mask(v):
+    """libavoid ConnDirFlags (Up 1, Down 2, Left 4, Right 8; y grows downwards) -> mask over N=1,E=2,S=4,W=8 of the first segment"""
+    return (1 if v & 1 else 0) | (4 if v & 2 else 0) | (8 if v & 4 else 0) | (2 if v & 8 else 0)
+
+
+def arrival_mask(v):
+    """the connector arrives at an end visible in direction d travelling in the reverse of d"""
+    return (4 if v & 1 else 0) | (1 if v & 2 else 0) | (2 if v & 4 else 0) | (8 if v & 8 else 0)
+
+
 def parse_num(tok):
     """route coordinate printed with %.17g -> exact int, or None when not an integer"""
     try:
@@ -115,17 +136,21 @@ def run_routes(exe, spec_exe, scenes, pen):
         inp.append('S %d %d %d' % (pen, len(boxes), len(conns)))
         for b in boxes:
             inp.append('%d %d %d %d' % b)
-        for s, d in conns:
-            inp.append('%d %d %d %d' % (s + d))
+        for c in conns:
+            s, d = c[0], c[1]
+            sv, dv = (c[2], c[3]) if len(c) > 2 else (15, 15)
+            inp.append('%d %d %d %d %d %d' % (s + d + (sv, dv)))
         inp.append('E')
     rc, out, err, dt = C.sh([exe, 'routes'], input='\n'.join(inp) + '\n', timeout=900)
     lines = out.split('\n')
     recs, k = [], 0
     for boxes, conns in scenes:
-        for s, d in conns:
+        for c in conns:
+            s, d = c[0], c[1]
+            sv, dv = (c[2], c[3]) if len(c) > 2 else (15, 15)
             t = lines[k].split() if k < len(lines) else []
             k += 1
-            rec = {'boxes': boxes, 'src': s, 'dst': d, 'penalty': pen, 'raw': ' '.join(t)}
+            rec = {'boxes': boxes, 'src': s, 'dst': d, 'penalty': pen, 'raw': ' '.join(t), 'src_dirs': sv, 'dst_dirs': dv}
             if not t or t[0] != 'R':
                 rec['error'] = 'router raised an exception / no route printed (rc=%s %s)' % (rc, err[-300:])
                 recs.append(rec)
@@ -144,7 +169,7 @@ def run_routes(exe, spec_exe, scenes, pen):
         f = [r['penalty'], len(r['boxes'])]
         for b in r['boxes']:
             f += list(b)
-        f += list(r['src']) + list(r['dst']) + [len(r['route'])]
+        f += list(r['src']) + list(r['dst']) + [start_mask(r['src_dirs']), arrival_mask(r['dst_dirs']), len(r['route'])]
         for p in r['route']:
             f += list(p)
         oin.append(' '.join(str(v) for v in f))
@@ -216,7 +241,7 @@ def run(tier):
         'an optimal orthogonal path exists on the Hanan grid (classical, not proved); the grid oracle is proved sound, its optimality is not',
     ]
     R = 2 if tier == 'quick' else 3
-    exe = C.build_harness('c05_bends', ['libavoid'], 'plain')
+    exe = build_harness_retry('c05_bends', ['libavoid'], 'exc')
     spec_exe = C.ocaml_build('c05spec', 'C05spec.v', 'c05_spec_driver.ml', 'c05_spec.ml')
     rc, cpp_out, err, dt = C.sh([exe, 'bends', str(R)], timeout=600)
     cpp = parse_sweep(cpp_out, 8)
@@ -338,6 +363,6 @@ def replay(path):
 
 
 def warm():
-    C.build_harness('c05_bends', ['libavoid'], 'plain')
+    build_harness_retry('c05_bends', ['libavoid'], 'exc')
     C.ocaml_build('c05spec', 'C05spec.v', 'c05_spec_driver.ml', 'c05_spec.ml')
     C.ocaml_build('c05gen', 'C05gen.v', 'c05_gen_driver.ml', 'c05_gen.ml')
